@@ -34,7 +34,14 @@ TRerender ==
   /\ Chk("DirectRenderingWorks", Ev.direct_ok)
   /\ Chk("LawAgreement", Ev.refused \/ Ev.same_law)
   /\ UNCHANGED tvars
-TNext == TWrite1 \/ TRead1 \/ TModify \/ TWrite2 \/ TRead2 \/ TRerender
+(* Network.export(...) followed by `naunet render --force` on the exported project IN A FRESH PROCESS (nothing but the project's own
+   files carries the description over): the re-rendering is refused, or its rate statements and constants are those of the export *)
+TExport ==
+  /\ IsEv("Export")
+  /\ Chk("ExportSucceeds", Ev.exported)
+  /\ Chk("ExportedProjectRerendersTheSame", Ev.refused \/ Ev.same)
+  /\ UNCHANGED tvars
+TNext == TWrite1 \/ TRead1 \/ TModify \/ TWrite2 \/ TRead2 \/ TRerender \/ TExport
 TSpec == TInit /\ [][TNext]_<<tvars, tid, l>>
 Track ==
   /\ Chk("Inv:ReadWriteId", ReadWriteId)
